@@ -336,6 +336,11 @@ int main(int argc, char** argv) {
                 unsigned long n; is >> n;
                 int b = int(s.S->getBlockNumber(QuantumState(n)));
                 out << "o ok " << b << "\n";
+            } else if (cmd == "fockof") {
+                // the Fock state at (block, position); blocks that do not exist (also the "no such block" value -1) are refused
+                long b; unsigned long m; is >> b >> m;
+                FockState f = s.S->getFockState(BlockNumber(b), InnerQuantumState(m));
+                out << "o ok " << f.to_ulong() << "\n";
             } else if (cmd == "innerof") {
                 unsigned long n; is >> n;
                 unsigned long i = s.S->getInnerState(QuantumState(n));
@@ -370,6 +375,7 @@ int main(int argc, char** argv) {
             } else if (cmd == "dm") {
                 double beta = hx::readD(is);
                 s.DM = new DensityMatrix(*s.S, *s.H, beta);
+                s.GFC = 0;      // containers are bound to the density matrix they were built with: the next one is built afresh
                 s.DM->prepare(); s.DM->compute();
                 if (s.stress) { s.DM->prepare(); s.DM->compute(); }
                 for (BlockNumber b = 0; b < s.S->NumberOfBlocks(); b++) {
@@ -476,8 +482,11 @@ int main(int argc, char** argv) {
                     Z.prepare();
                     std::vector<boost::tuple<ComplexType, ComplexType, ComplexType> > fz;
                     std::vector<long> tz;
-                    for (long q = 0; q < 67; ++q) {
-                        // two thirds of the entries (incl. the last ones) lie where the disconnected part does not vanish
+                    for (long qq = 0; qq < 67; ++qq) {
+                        // every point is listed twice in a row (a list may repeat a frequency; with 67 entries the boundaries of
+                        // the usual static chunks fall inside such pairs); two thirds of the points (incl. the last ones) lie
+                        // where the disconnected part does not vanish
+                        long q = qq / 2;
                         long n1 = q % 9 - 4, n2 = (q / 9) % 9 - 4, n3 = q % 3 == 0 ? n1 : (q % 3 == 1 ? n2 : (q * 5) % 7 - 3);
                         tz.push_back(n1); tz.push_back(n2); tz.push_back(n3);
                         fz.push_back(boost::make_tuple(sp * RealType(2*n1+1), sp * RealType(2*n2+1), sp * RealType(2*n3+1)));
@@ -586,8 +595,16 @@ int main(int argc, char** argv) {
                     out << "o ok\n";
                 } else if (sub == "computeall") {
                     int split; is >> split;
+                    std::string purge; is >> purge;
                     std::vector<boost::tuple<ComplexType, ComplexType, ComplexType> > nofreqs;
-                    s.TPC->computeAll(false, nofreqs, world, split != 0);
+                    if (purge == "purge") {
+                        // table computation that discards the terms of every element afterwards
+                        ComplexType sp = ComplexType(0, M_PI / s.DM->beta);
+                        nofreqs.push_back(boost::make_tuple(sp, sp, sp));
+                        nofreqs.push_back(boost::make_tuple(sp, -sp, RealType(3) * sp));
+                        s.TPC->computeAll(true, nofreqs, world, split != 0);
+                    } else
+                        s.TPC->computeAll(false, nofreqs, world, split != 0);
                     out << "o ok\n";
                 } else if (sub == "list") {
                     // canonical element numbers: order of first appearance of the pointer in creation order is not observable;
